@@ -9,10 +9,10 @@ use serde_json::{json, Value};
 use std::io::{BufRead, Read};
 use vph::refdec;
 
-pub const RULE: &str = "frame parameter menu of 12 (rate: fixed code / kHz / Hz / daHz classes; channels 1,2,3,8; depth 8,12,16,20,24,32; length 1,16,17,40): (A) ALL sequences of 1..3 frames written by FlacStreamWriter — each frame must decode from its own bytes alone in the independent decoder's subset mode and FlacStreamReader must return every frame's samples and parameters exactly, for the unsegmented source, every single cut point and 1-byte buffers; all non-subset rate/depth classes must be refused at write; (C) grammar-built raw frame streams covering every block-size code (incl. both explicit forms), every sample-rate code that is carried in the header, every depth code and every channel-assignment code, fixed and variable blocking, read whole / through 7-byte buffers / with one cut: every frame returned exactly; (D) the writer's own code tables: frames of every common block length (192, 576·2^k, 256·2^k) and 255 / 257 / 65535 / 1 / 15 samples, and 65536 / 65537 / 69632 / 131073 (more than a header can describe) × channels 1..8 × a depth/rate menu × 5 option sets (exhaustive / fast correlation, no mid-side, no LPC, LPC 32) on channel-heterogeneous signals, each followed by a frame with other parameters: decodable from the own header with exact parameters and samples, and returned exactly by FlacStreamReader; (B) 6 three-frame sequences × ALL placements of ≤3 garbage strings from {00, FF, FF FF, FF F8, FF F9, FF F8 + CRC-8-valid fake header, the first 5 / 9 bytes of a real frame, 37 sync-free bytes} in the 4 gaps × every single cut point of the source (thorough: + every pair of cuts for ≤1 garbage string) and 1-byte buffers: frames returned Ok must be a subsequence of the written frames in order with exact samples/parameters; when no inserted string contains FF F8/FF F9 every frame must be returned and no error may precede the final end of data";
+pub const RULE: &str = "frame parameter menu of 12 (rate: fixed code / kHz / Hz / daHz classes; channels 1,2,3,8; depth 8,12,16,20,24,32; length 1,16,17,40): (A) ALL sequences of 1..3 (thorough 1..4) frames written by FlacStreamWriter — each frame must decode from its own bytes alone in the independent decoder's subset mode and FlacStreamReader must return every frame's samples and parameters exactly, for the unsegmented source, every single cut point and 1-byte buffers; all non-subset rate/depth classes must be refused at write; (C) grammar-built raw frame streams covering every block-size code (incl. both explicit forms), every sample-rate code that is carried in the header, every depth code and every channel-assignment code, fixed and variable blocking, read whole / through 7-byte buffers / with one cut: every frame returned exactly; (D) the writer's own code tables: frames of every common block length (192, 576·2^k, 256·2^k) and 255 / 257 / 65535 / 1 / 15 samples, and 65536 / 65537 / 69632 / 131073 (more than a header can describe) × channels 1..8 × a depth/rate menu × 5 option sets (exhaustive / fast correlation, no mid-side, no LPC, LPC 32) on channel-heterogeneous signals, each followed by a frame with other parameters: decodable from the own header with exact parameters and samples, and returned exactly by FlacStreamReader; (B) 6 three-frame sequences × ALL placements of ≤3 garbage strings from {00, FF, FF FF, FF F8, FF F9, FF F8 + CRC-8-valid fake header, the first 5 / 9 bytes of a real frame, 37 sync-free bytes} in the 4 gaps × every single cut point of the source (thorough: + every pair of cuts for ≤1 garbage string) and 1-byte buffers: frames returned Ok must be a subsequence of the written frames in order with exact samples/parameters; when no inserted string contains FF F8/FF F9 every frame must be returned and no error may precede the final end of data";
 pub const ASSUMPTIONS: &[&str] = &["garbage is drawn from a 9-string alphabet; frames from a 12-entry parameter menu with position-identifying PCM"];
 pub fn bounds(quick: bool) -> Value {
-    json!({"clean_sequences": "all of length 1..3 over 12 frame kinds", "garbage_strings_per_stream": 3, "cuts": if quick { "every single cut (≤2 garbage strings), every pair of cuts (≤1 garbage string, first sequence), 1-byte buffers" } else { "every single cut, every pair of cuts (≤2 garbage strings), 1-byte buffers" }})
+    json!({"clean_sequences": if quick { "all of length 1..3 over 12 frame kinds" } else { "all of length 1..4 over 12 frame kinds" }, "garbage_strings_per_stream": 3, "cuts": if quick { "every single cut (≤2 garbage strings), every pair of cuts (≤1 garbage string, first sequence), 1-byte buffers" } else { "every single cut, every pair of cuts (≤2 garbage strings), 1-byte buffers" }})
 }
 
 /// BufRead over a fixed byte string whose fill_buf never crosses a cut point (and serves ≤ chunk bytes if chunk>0)
@@ -273,6 +273,11 @@ pub fn run(ctx: &Ctx, acc: &mut Acc) {
             seqs.push(vec![a, b]);
             for c in 0..n {
                 seqs.push(vec![a, b, c]);
+                if ctx.thorough() {
+                    for d in 0..n {
+                        seqs.push(vec![a, b, c, d]);
+                    }
+                }
             }
         }
     }
